@@ -57,6 +57,12 @@ const AccountPattern = "^" + AccountSegmentRegex + "(:" + AccountSegmentRegex + 
 
 var AccountRegexp = regexp.MustCompile(AccountPattern)
 
+// AccountFilterPattern describes the address patterns accepted by the list filters:
+// an address of which some segments can be left empty (ie: "users::wallet", "users:").
+const AccountFilterPattern = "^(" + AccountSegmentRegex + ")?(:(" + AccountSegmentRegex + ")?)*$"
+
+var AccountFilterRegexp = regexp.MustCompile(AccountFilterPattern)
+
 func ValidateAddress(addr string) bool {
 	return AccountRegexp.Match([]byte(addr))
 }
